@@ -123,6 +123,14 @@ fn deep_wxml() -> Vec<String> {
         v.push(format!("{}", "<!--".repeat(n)));
         v.push(format!("{}", "&amp".repeat(n)));
     }
+    // scopes opened in one branch only of an if / elif / else chain
+    for inner in ["<view slot:item>{{item}}</view>", "<view slot:a=\"b\">{{b}}{{a}}</view>", "<view wx:for=\"{{l}}\" wx:for-item=\"x\">{{x}}{{index}}</view>", "<slot name=\"{{a}}\" v=\"{{b}}\" slot:v/>", "<template is=\"{{t}}\" data=\"{{ {a} }}\"/>", "<include src=\"q\"/>{{a}}"] {
+        for k in 0..3 {
+            let b = |i: usize| if i == k { inner.to_string() } else { "x".to_string() };
+            v.push(format!("<child><block wx:if=\"{{{{a}}}}\">{}</block><block wx:elif=\"{{{{b}}}}\">{}</block><block wx:else>{}</block></child>", b(0), b(1), b(2)));
+            v.push(format!("<child><view wx:if=\"{{{{a}}}}\">{}</view><view wx:else>{}</view></child>", b(0), b(if k == 2 { 2 } else { 1 })));
+        }
+    }
     // wide, not deep: thousands of siblings in one scope (thousands of generated identifiers in one function)
     for n in [1000usize, 4000] {
         v.push("<view id=\"i\" class=\"{{a}}\"><text>{{b}}</text></view>".repeat(n));
@@ -210,7 +218,7 @@ pub fn search() -> Outcome {
     }
     let mut wx = combos(WX_PIECES, depth);
     wx.extend(deep_wxml());
-    let mut o = drive("wxml", wx, format!("all concatenations of <= {} pieces from a list of {} directed pieces; every recursive construct nested 8/24/48/64 deep, closed and unclosed; 1000 and 4000 siblings in one scope", depth, WX_PIECES.len()));
+    let mut o = drive("wxml", wx, format!("all concatenations of <= {} pieces from a list of {} directed pieces; every recursive construct nested 8/24/48/64 deep, closed and unclosed; 36 if / elif / else chains with a scope-opening node in one branch; 1000 and 4000 siblings in one scope", depth, WX_PIECES.len()));
     o.evaluations += extra;
     o.bound = format!("{} ; attribute family: 8 hosts x 39 attribute names x 3 letter cases x 6 value forms x 2 shapes", o.bound);
     if o.found {
